@@ -178,3 +178,13 @@ rev_fns!(E16, rt_feed_e16, rt_adv_e16, |v: i64| E16(v, !v), |x: &E16| if x.1 == 
         sum
     }
 }
+
+// ---- a vector BUILT BY C (malloc'ed buffer, C reserve/drop functions): Rust pushes n items (growth must go through reserve_fn, which MOVES the buffer),
+// reads the contents back and releases it (one drop_fn(data, len, capacity) call with the vector's own values)
+#[no_mangle] pub extern "C" fn rt_vec_rev(mut v: CVec<u64>, n: usize, base: u64) -> u64 {
+    for i in 0..n { v.push(base + i as u64); }
+    if n % 3 == 2 && !v.is_empty() { let x = v.remove(0); v.insert(0, x); }
+    let sum = v.iter().fold(0u64, |a, x| a.wrapping_mul(31).wrapping_add(*x));
+    drop(v);
+    sum
+}
